@@ -333,7 +333,8 @@ Section Cover.
   Proof.
     induction l as [|t l IH]; intros pos H s Hs; [destruct Hs|].
     cbn [name_scans name_raws] in *. apply ok_app in H as [H1 H2]. apply in_app_or in Hs as [Hs|Hs]; [|exact (IH _ H2 s Hs)].
-    destruct (negb (nonempty (children "parts" t)) && (Nat.ltb pos nassign || names_variable base words pos nassign)); [|destruct Hs].
+    destruct (Nat.ltb pos nassign || names_variable base words pos nassign); [|cbn [andb] in Hs; rewrite andb_false_r in Hs; destruct Hs].
+    destruct (negb (nonempty (children "parts" t))); [|destruct Hs]. cbn [andb] in Hs.
     destruct Hs as [<-|[]]. exact H1.
   Qed.
 
@@ -355,7 +356,7 @@ Section Cover.
       destruct (str_eqb k $"word"); [destruct Hs|].
       apply ok_app in H as [H _]. rewrite ok_flat_map in H. apply in_map_iff in Hs as [[l x] [<- Hx]]. exact (H (l, x) Hx).
     - destruct b; [|destruct Hs]. rewrite wp_unfold in H. rewrite !ok_app in H. destruct H as [_ [_ H]].
-      destruct (nonempty (children "parts" (T k ss fs ks))); [destruct Hs|]. cbn [andb negb] in H.
+      destruct (nonempty (children "parts" (T k ss fs ks))); [destruct Hs|]. cbn [negb] in H.
       destruct Hs as [<-|[]]. exact H.
     - destruct Hs.
     - rewrite redir_unfold in H. destruct (str_eqb k $"heredoc"); [|destruct Hs].
